@@ -132,7 +132,7 @@ func oneDocsCache(r *rng.R, rl *disk.ReadLimiter, path string, idx int) (result,
 			aliased = true
 		}
 		for ki, k := range ks {
-			if len(ks) > 1 && ki == r.Intn(6*len(ks)) && (len(blocks) > 0 || ki+1 < len(ks)) {
+			if len(ks) > 1 && ki == r.Intn(3*len(ks)) && (len(blocks) > 0 || ki+1 < len(ks)) {
 				// malformed: this block of the column does not decode (below 4 GiB the failed load goes through the cache)
 				junk := make([]byte, r.Range(8, 60))
 				for q := range junk {
@@ -265,7 +265,17 @@ func oneDocsCache(r *rng.R, rl *disk.ReadLimiter, path string, idx int) (result,
 		return out
 	}
 	nops := r.Range(5, 18)
+	forcedAt := r.Intn(nops) // every undecodable block is read (twice) at least once
+	forced := len(corrupt) == 0
 	for len(ops) < nops {
+		if !forced && len(ops) >= forcedAt {
+			forced = true
+			for _, off := range corrupt {
+				read(off, []uint64{0})
+				read(off, []uint64{0})
+			}
+			continue
+		}
 		switch k := r.Intn(12); {
 		case k < 5:
 			readBlock(rng.Pick(r, blocks))
@@ -291,6 +301,9 @@ func oneDocsCache(r *rng.R, rl *disk.ReadLimiter, path string, idx int) (result,
 				off = rng.Pick(r, corrupt)
 			}
 			read(off, []uint64{0})
+			if r.Chance(2, 3) { // the caller tries again: the failed load must not have left anything behind
+				read(off, []uint64{0})
+			}
 			if r.Bool() { // and then a block whose offset has the same low 32 bits
 				for _, b := range blocks {
 					if b.Off%two32 == off%two32 {
